@@ -140,7 +140,8 @@ Theorem C07_every_field_type_has_an_arm :
 Proof. exact every_field_type_has_an_arm. Qed.
 Print Assumptions C07_every_field_type_has_an_arm.
 
-(* every explicit panic( call in the anchored files is a model Panic site or a reviewed printer-side site *)
+(* census only: every explicit panic( call of the scanned packages (compile/print path incl. internal/bcl/** and
+   lib/j5reflect) is listed; 2 of 14 are Panic sites of the model, the others are explored under recover(), not proved *)
 Theorem C07_panic_sites_agree : panic_sites_same_set = true.
 Proof. exact panic_sites_agree. Qed.
 Print Assumptions C07_panic_sites_agree.
